@@ -1,29 +1,31 @@
 #!/bin/bash
-# Detection matrix: apply every seeded change (and every canary = reverted fix) to a scratch copy
-# of /repo (never /repo itself), run the quick checks of the given properties against it
-# (VERIF_REPO), record which checks report a VIOLATION.
-# usage: run_seeds.sh <outfile> <props...>      (seeds filter: SEEDS="C10-1 C12-2")
+# Detection matrix: apply every seeded change (/verif/seeded/<id>/patch.diff) and every canary
+# (/verif/selftest/canaries/F*.patch = a repaired defect put back) to a scratch copy of /repo
+# (never /repo itself), run the quick checks of the given properties against it (VERIF_REPO),
+# record which checks report a VIOLATION. Unchanged functions hit the result cache.
+# usage: run_seeds.sh <outfile> <props...>      (filter: SEEDS="C10-1 F3")
 out=$1; shift
 props="$@"
 scratch=/var/tmp/vscratch/repo_seed.$$
 rm -rf $scratch; mkdir -p /var/tmp/vscratch; cp -r /repo $scratch
 vd=/var/tmp/vscratch/vd.$$; mkdir -p $vd /verif/.cache; cp /verif/known_findings.jsonl $vd/; ln -sfn /verif/.cache $vd/.cache
+cp /verif/bin/govc $vd/govc
 : > $out
-list=${SEEDS:-$(ls /verif/seeded)}
+list=${SEEDS:-$(ls /verif/seeded; ls /verif/selftest/canaries | grep patch | sed 's/.patch//')}
 for sd in $list; do
-  d=/verif/seeded/$sd
+  if [ -f /verif/selftest/canaries/$sd.patch ]; then pf=/verif/selftest/canaries/$sd.patch; else pf=/verif/seeded/$sd/patch.diff; fi
   git -C $scratch checkout -q -- . 2>/dev/null
-  if ! git -C $scratch apply $d/patch.diff 2>/dev/null; then echo "$sd APPLY-FAIL" >> $out; continue; fi
+  if ! git -C $scratch apply $pf 2>/dev/null; then echo "$sd APPLY-FAIL" >> $out; continue; fi
   line="$sd"
   for p in $props; do
-    res=$(cd /verif && VERIF_REPO=$scratch VERIF_DIR=/var/tmp/vscratch/vd.$$ timeout 900 ./bin/govc check -p $p 2>&1)
+    res=$(cd /verif && VERIF_NORETRY=1 VERIF_REPO=$scratch VERIF_DIR=$vd timeout 1200 $vd/govc check -p $p 2>&1)
     rc=$?
     nv=$(echo "$res" | grep -c "^VIOLATION")
     conf=$(echo "$res" | grep "^VIOLATION" | grep -vc "no-failing-input-found")
-    line="$line $p:rc=$rc,viol=$nv,confirmed=$conf"
+    if [ $rc -ne 0 ]; then line="$line $p:viol=$nv,confirmed=$conf"; fi
   done
   echo "$line" >> $out
 done
 git -C $scratch checkout -q -- . 2>/dev/null
-rm -rf $scratch /var/tmp/vscratch/vd.$$
+rm -rf $scratch $vd
 echo DONE >> $out
